@@ -68,13 +68,32 @@ Proof. exact registry_view_sound. Qed.
 Theorem C15_holds : forall s, c15_wf s = true -> ok_C15 s (model_C15 s) = true.
 Proof. exact ok_model_C15. Qed.
 
+(** connections are independent: that a sibling connection under the same
+    server / shutdown trigger ended earlier changes nothing for this one *)
+Theorem C15_sibling_independent : forall s b,
+  run (set_sibling b s) = run s /\ model_C15 (set_sibling b s) = model_C15 s /\
+  model_mid (set_sibling b s) = model_mid s.
+Proof. exact sibling_independent. Qed.
+
+(** until its own exit cause is raised a connection has seen nothing of the
+    guard's drop (no cancel, no disconnect hook, no registry remove) and no
+    handler of it has observed a cancellation *)
+Theorem C15_survivor_untouched : forall s, c15_stag_wf s = true ->
+  (exists rest, run s = before_arrive (run s) ++ EArrive (s_cause s) :: rest) /\
+  (forall e, In e (before_arrive (run s)) -> guard_side e = false /\ is_offsees e = false).
+Proof. exact survivor_untouched. Qed.
+
+(** the oracle for the observation of a survivor accepts the model *)
+Theorem C15_mid_holds : forall s, c15_stag_wf s = true -> ok_mid s (model_mid s) = true.
+Proof. exact ok_model_mid. Qed.
+
 (** ** non-vacuity *)
 
 (** a panicking connect hook after the registry insert and an alias, a parked
     handler never started, two disconnect hooks around the registry's remove *)
 Definition c15_ex_panic : scenario :=
   mkScenario MServeConn true true [ANotify 2] true [ACount] [AAlias 7; APanic; ACount] 1 1
-             CleanClose POffReader 1 0.
+             CleanClose POffReader 1 0 false.
 
 Example C15_ex_panic_run :
   run c15_ex_panic =
@@ -92,7 +111,7 @@ Proof. vm_compute. repeat split; reflexivity. Qed.
 
 (** the connection future dropped by an abort while an off-reader handler is parked *)
 Definition c15_ex_abort : scenario :=
-  mkScenario MAdopt true false [] true [ANotify 1] [AAlias 9] 0 2 DrainAbort POffReader 1 0.
+  mkScenario MAdopt true false [] true [ANotify 1] [AAlias 9] 0 2 DrainAbort POffReader 1 0 false.
 
 Example C15_ex_abort_run :
   run c15_ex_abort =
@@ -108,7 +127,7 @@ Proof. vm_compute. split; reflexivity. Qed.
 
 (** socket loss while a handler is parked: it sees the cancellation only from the guard *)
 Example C15_ex_loss_run :
-  run (mkScenario MListener true false [] false [] [] 1 0 SocketLoss POffReader 1 0) =
+  run (mkScenario MListener true false [] false [] [] 1 0 SocketLoss POffReader 1 0 false) =
   [EHandshake true; EGuardBuilt; EReaderStart; ERequest 0; EQueue (OResponse 0); ERequest 1; EOffStart;
    EArrive SocketLoss; EExit (XCause SocketLoss); ECancel; EOffSeesCancel; EDisconnect 0].
 Proof. vm_compute. reflexivity. Qed.
@@ -132,9 +151,9 @@ Example C15_oracle_rejects :
   (* the peer absent inside a connect hook registered after the registry *)
   ok_C15 s (mkObs [HC 0 false; HK; HD 0 false 0; HD 1 false 0] (false, 0) [WN 0 0; WR] (Some true)) = false /\
   (* any callback for a failed handshake *)
-  ok_C15 (mkScenario MListener false false [] false [] [] 1 0 CleanClose PIdle 1 0)
+  ok_C15 (mkScenario MListener false false [] false [] [] 1 0 CleanClose PIdle 1 0 false)
          (mkObs [HD 0 false 0] (false, 0) [] None) = false /\
-  ok_C15 (mkScenario MListener false false [] false [] [] 1 0 CleanClose PIdle 1 0)
+  ok_C15 (mkScenario MListener false false [] false [] [] 1 0 CleanClose PIdle 1 0 false)
          (mkObs [] (false, 0) [] None) = true.
 Proof. vm_compute. repeat split; reflexivity. Qed.
 
@@ -146,6 +165,24 @@ Example C15_view_example :
   sp_lookup (reg_after 1 (mkPspec [2] [(4, 2)]) tr) 3 = None /\
   rv_after rv0 (tr ++ [ERegRemove]) = mkRv false [] /\
   sp_lookup (reg_after 1 (mkPspec [2] [(4, 2)]) (tr ++ [ERegRemove])) 4 = None.
+Proof. vm_compute. repeat split; reflexivity. Qed.
+
+(** a survivor with a parked handler, observed before its own cause: present
+    with its alias, nothing seen, still serving; the oracle rejects an early
+    disconnect, an early absence, a spurious cancellation, a dead connection, a
+    cancelled trigger and a broken new connection *)
+Example C15_mid_example :
+  let s := set_sibling true c15_ex_abort in
+  c15_stag_wf s = true /\
+  model_mid s = mkMobs 0 true 0 (Some false) true false true /\
+  model_mid (mkScenario MServeConn true true [] true [AAlias 3] [AAlias 4] 1 1 EmbedderCancel PIdle 2 0 true)
+    = mkMobs 0 true 2 None true false true /\
+  ok_mid s (mkMobs 1 true 0 (Some false) true false true) = false /\
+  ok_mid s (mkMobs 0 false 0 (Some false) true false true) = false /\
+  ok_mid s (mkMobs 0 true 0 (Some true) true false true) = false /\
+  ok_mid s (mkMobs 0 true 0 (Some false) false false true) = false /\
+  ok_mid s (mkMobs 0 true 0 (Some false) true true true) = false /\
+  ok_mid s (mkMobs 0 true 0 (Some false) true false false) = false.
 Proof. vm_compute. repeat split; reflexivity. Qed.
 
 Check C15_disconnect_once : forall s j, s_hs s = true ->
@@ -174,6 +211,14 @@ Check C15_registry_view_sound : forall id tr st, spec_inv st -> memN id (s_prese
   (forall k, sp_lookup (reg_after id st tr) k = Some id <-> In k (rv_keys (rv_after rv0 tr))).
 Check C15_holds : forall s, c15_wf s = true -> ok_C15 s (model_C15 s) = true.
 
+Check C15_sibling_independent : forall s b,
+  run (set_sibling b s) = run s /\ model_C15 (set_sibling b s) = model_C15 s /\
+  model_mid (set_sibling b s) = model_mid s.
+Check C15_survivor_untouched : forall s, c15_stag_wf s = true ->
+  (exists rest, run s = before_arrive (run s) ++ EArrive (s_cause s) :: rest) /\
+  (forall e, In e (before_arrive (run s)) -> guard_side e = false /\ is_offsees e = false).
+Check C15_mid_holds : forall s, c15_stag_wf s = true -> ok_mid s (model_mid s) = true.
+
 (** the predicates used above are the plain ones *)
 Check (eq_refl : is_disc_j = fun j e => match e with EDisconnect j' => (j =? j')%nat | _ => false end).
 Check (eq_refl : is_disc = fun e => match e with EDisconnect _ => true | _ => false end).
@@ -193,3 +238,6 @@ Print Assumptions C15_hook_notifies_before_responses.
 Print Assumptions C15_registry_window.
 Print Assumptions C15_registry_view_sound.
 Print Assumptions C15_holds.
+Print Assumptions C15_sibling_independent.
+Print Assumptions C15_survivor_untouched.
+Print Assumptions C15_mid_holds.
